@@ -8,7 +8,7 @@ from .architecture import instruction_opcodes
 from .metacommand_impl import get_as_int
 from .containers import CaseInsensitiveDict
 from .deferred import Deferred, SizedDeferred, wait
-from .types import Symbol, ParenthesizedExpression, Number, InstructionPointer, Label
+from .types import Symbol, ParenthesizedExpression, Number, InstructionPointer, Label, CodeBlock
 from . import operators
 from . import reports
 
@@ -396,6 +396,13 @@ class Instruction:
             )
             return None
 
+
+        if insn.operands and isinstance(insn.operands[-1], CodeBlock):
+            reports.error(
+                "wrong-operands",
+                (insn.ctx_start, insn.ctx_end, f"Instruction '{self.name}' does not take a code block")
+            )
+            return None
 
         replacements = []
         operands_encoding = b""
